@@ -113,6 +113,42 @@ func main() {
 		if bad {
 			os.Exit(1)
 		}
+	case "gw-replay":
+		hr, err := runReplay(*replay, true)
+		if err != nil {
+			fmt.Fprintln(os.Stderr, "replay:", err)
+			os.Exit(2)
+		}
+		for _, st := range hr.Steps {
+			fmt.Println(st.Stim)
+			for _, o := range st.Wire {
+				fmt.Println("    wire: " + o)
+			}
+			for _, o := range st.Obs {
+				fmt.Println("    " + o)
+			}
+			if *snap {
+				for _, o := range st.Snap {
+					if len(o) > 700 {
+						o = o[:700] + "..."
+					}
+					fmt.Println("      " + o)
+				}
+			}
+		}
+		if *model {
+			if step, impl, mod, err := compareWithModel(*driver, hr); err == nil && step >= 0 {
+				fmt.Printf("MODEL-DISAGREES at step %d (%s)\n  impl : %s\n  model: %s\n", step, hr.Steps[step].Stim, impl, mod)
+			} else if err == nil {
+				fmt.Println("MODEL-AGREES on every step")
+			}
+		}
+		for _, v := range hr.Viols {
+			fmt.Printf("MONITOR %s/%s: %s\n", v.Prop, v.Key, v.What)
+		}
+		if len(hr.Viols) > 0 {
+			os.Exit(1)
+		}
 	case "gw-script":
 		viols, steps, err := runScript(*replay, false)
 		for _, st := range steps {
